@@ -17,7 +17,7 @@ CONSTANTS
  MaxExpire = 0
  MaxCloseIdle = 0
  Hist = TRUE
- Bug = "firstBroker"
+ Bug = "clientMax"
  AnyConnId = FALSE
  MoveKinds = {"leader"}
 INVARIANTS TypeOK C12_Routing C12_Address C12_Version C12_FollowLeader C12_CacheFilter C06t_OwnResponse C06t_ReleaseOnlyAfterComplete C06t_NoReuseAfterFailure C09t_CancelPrompt
